@@ -15,7 +15,7 @@ echo "compiler tests with: $(cd $wt && go test -vet=off -count=1 ./compiler/... 
 echo "demo_with: $(rundemo)"; tail -5 /tmp/demo.$$.log
 (cd $wt && git status --short | head -5)
 for p in $(echo $props | tr , ' '); do
-  out=$(VERIF_REPO=$wt /verif/verif check $p --budget $budget 2>/dev/null | grep -E "^VIOLATION|class=|INFRA" | head -6 | cut -c1-300)
+  out=$(VERIF_REPO=$wt ${VERIF_HOME:-/verif}/verif check $p --budget $budget 2>/dev/null | grep -E "^VIOLATION|class=|INFRA" | head -6 | cut -c1-300)
   echo "check_$p: $out"
 done
 git -C /repo worktree remove --force $wt
